@@ -609,14 +609,90 @@ func Run(r *evid.Run) {
 	if done < total+2 {
 		r.Cap(fmt.Sprintf("deadline: %d of %d histories", done, total))
 	}
+	runFailedOpen(r)
+	r.Rule("failed first open: the very first Open hits an I/O error at its j-th mutating file-system operation (every j outside pebble's DB directory, where an error ends the process; the process stays up) and is retried, then two puts and a completed Sync, then a power loss: the reopened table is at or beyond the synced index")
 	r.Assume("fault model of the property: file data durable up to the file's last sync, directory entries up to the directory's last sync (pebble strict MemFS); no torn writes inside a synced file")
 	r.Assume("the workload is allowed to run on after the crash point with syncs ineffective, then unsynced state is dropped; operations after the crash point therefore never reach durable state")
+}
+
+// failedOpenOne: the very first Open of the table hits an I/O error at its j-th mutating file-system
+// operation (the process stays up, nothing is lost, nothing extra becomes durable) and is retried;
+// then two puts and a Sync, then a power loss. What the completed Sync covered must survive - "it
+// exists" (left behind by the failed attempt) is not "it is durable". j = 0: no error.
+func failedOpenOne(j int) (vs []viol, outcome string, ops []fsmx.Op) {
+	env := fsmx.NewEnv()
+	env.FS.FailOp = j
+	env.FS.Keep = true
+	inst, _, err := env.Open("t", 10001, fsm.RecoveryTypeSnapshot)
+	ops = append(ops, env.FS.Log...)
+	firstFailed := err != nil
+	if err != nil {
+		if inst != nil && inst.F != nil {
+			_ = inst.Close()
+		}
+		inst, _, err = env.Open("t", 10001, fsm.RecoveryTypeSnapshot)
+		if err != nil {
+			if inst != nil && inst.F != nil {
+				_ = inst.Close()
+			}
+			return nil, fmt.Sprintf("j=%d retry-refused: %s", j, short(err.Error())), ops // no acknowledgement was given: not a verdict
+		}
+	}
+	ok := true
+	for i, k := range []string{"a", "b"} {
+		if _, err := inst.Update([]sm.Entry{fsmx.Entry(uint64(i+1), Put(k, "v", false))}); err != nil {
+			ok = false
+		}
+	}
+	if !ok || inst.Sync() != nil {
+		_ = inst.Close()
+		return nil, fmt.Sprintf("j=%d workload-refused", j), ops
+	}
+	// power loss (the instance is abandoned, its DB handle stays open as in a real crash)
+	env.Crash()
+	rec, idx, err := env.Open("t", 10001, fsm.RecoveryTypeSnapshot)
+	if err != nil {
+		return []viol{{"failed-first-open/reopen-error-after-crash", fmt.Sprintf("first open failed at op %d (%v), retried, 2 puts, Sync completed, power loss: reopen: %v", j, firstFailed, err)}}, "", ops
+	}
+	defer rec.Close()
+	kvs, rerr := rec.All()
+	outcome = fmt.Sprintf("j=%d failed=%v recovered-index=%d pairs=%d", j, firstFailed, idx, len(kvs))
+	if idx < 2 || rerr != nil || len(kvs) != 2 {
+		vs = append(vs, viol{"failed-first-open/index-below-last-completed-sync", fmt.Sprintf("first open failed at file-system operation %d and was retried; after 2 puts and a completed Sync a power loss left index %d and %d pairs (read error %v)", j, idx, len(kvs), rerr)})
+	}
+	return vs, outcome, ops
+}
+
+func runFailedOpen(r *evid.Run) {
+	_, _, ops := failedOpenOne(0)
+	for j := 0; j <= len(ops); j++ {
+		// only operations of regatta's own code fail: an I/O error inside pebble's DB directory makes
+		// pebble end the process (Logger.Fatalf), which is a crash - and crashes are enumerated above
+		if j > 0 && strings.Contains(ops[j-1].Path, "<rnd>/") {
+			continue
+		}
+		vs, outcome, _ := failedOpenOne(j)
+		r.Outcome("failed-open "+outcome, true)
+		r.AddExtra("failed_first_open_cases", 1)
+		for _, v := range vs {
+			r.Violate(v.sig, v.detail, Case{Family: "failed-open", Crash: j})
+		}
+	}
 }
 
 func Replay(raw json.RawMessage) (string, bool) {
 	var c Case
 	if err := json.Unmarshal(raw, &c); err != nil {
 		return err.Error(), false
+	}
+	if c.Family == "failed-open" {
+		vs, outcome, _ := failedOpenOne(c.Crash)
+		var sb strings.Builder
+		sb.WriteString(outcome + "\n")
+		for _, v := range vs {
+			fmt.Fprintf(&sb, "%s: %s\n", v.sig, v.detail)
+		}
+		return sb.String(), len(vs) == 0
 	}
 	its := items()
 	if c.Family == "large" {
